@@ -140,7 +140,34 @@ def loadPoscar (hex : String) : String :=
   | .error _ => "err LoadError"
 end V
 
+/-! ### CRD: `x<title line>,…;resnum:x<resname>:x<attype>:x:y:z:x<segid>:resid:mass,…`
+loaded: `x<title>;resnum:x<resname>:x<attype>:x<segid>:resid,…;<atcoords n/d>;<atmasses n/d>` -/
+namespace C
+open Iodata.FmtR.Crd
+
+def decAtom (s : String) : SAtom :=
+  match s.splitOn ":" with
+  | [a, b, c, x, y, z, sg, r, m] => ⟨a.toNat!, decStr b, decStr c, decNum x, decNum y, decNum z, decStr sg, r.toNat!, decNum m⟩
+  | _ => ⟨0, [], [], ⟨false, 0, 0⟩, ⟨false, 0, 0⟩, ⟨false, 0, 0⟩, [], 0, ⟨false, 0, 0⟩⟩
+
+def spec (payload : String) : String :=
+  match payload.splitOn ";" with
+  | [t, ats] => okHex (specRender ⟨decList "," decStr t, decList "," decAtom ats⟩)
+  | _ => "bad-request"
+
+def encAtom (a : Atom) : String :=
+  s!"{a.resnum}:{encStr a.resname}:{encStr a.attype}:{encStr a.segid}:{a.resid}"
+
+def load (hex : String) : String :=
+  let U := Gen.LayoutsR.crdU
+  match Crd.load Gen.LayoutsR.crdL (linesOfHex hex) with
+  | .ok o => s!"ok {encStr o.title};{encList "," encAtom o.atoms};{V.encRats (atcoords U o)};{encList "," V.encRat (atmasses U o)}"
+  | .error _ => "err LoadError"
+end C
+
 def handle : List String → Option String
+  | ["fmtr", "spec", "crd", payload] => some (C.spec payload)
+  | ["fmtr", "load", "crd", payload] => some (C.load payload)
   | ["fmtr", "spec", "vasp", payload] => some (V.spec payload)
   | ["fmtr", "load", "chgcar", payload] => some (V.load .chgcar payload)
   | ["fmtr", "load", "locpot", payload] => some (V.load .locpot payload)
